@@ -159,6 +159,7 @@ def build():
         'new': A(ret='r', ensures=[('def', 'r == mk_ast(node, loc)')], props=('C18', 'C01')),
         'range': A(ret='r', ensures=[('def', 'r == a_loc(*self)')], props=('C18', 'C01')),
     }, others='stub')
+    S.grammar_ambient(U)
     U.extract('rscel/src/program/program_details.rs', 'impl ProgramDetails', fns=S.stubbed(S.DETAILS))
     U.extract(S.PR, 'impl From<ByteCode> for PreResolvedCodePoint', fns={'from': A(ret='r', ensures=[('def', 'r == PreResolvedCodePoint::Bytecode(value)')], props=('C10', 'C01'))})
     U.extract(S.PR, 'impl PreResolvedByteCode', fns={
@@ -199,6 +200,6 @@ def build():
     }
     assert(node_view(turnary_node.inner) == ternary_node(c0, t0.node, e0.node, e0.lbl));
 }'''}),
-    })
+    }, others='stub', skip=('with_tokenizer', 'compile'))
     U.raw(C.FOOTER, 'footer')
     return U
